@@ -272,11 +272,27 @@ pub fn run_history(project: &Project, ops: &[Op], scratch: &Path, use_memo: bool
                     }
                 };
                 if v.is_none() && inc.is_ok() {
-                    match dbx::syntax_invariants(&sut.db, &sut.main, &mut inv_rng, 12) {
+                    let inv_seed = inv_rng.next_u64();
+                    match dbx::syntax_invariants(&sut.db, &sut.main, &mut Rng::new(inv_seed), 12) {
                         Ok(n) => stats.counters.add("syntax_invariant_nodes_checked", n as u64),
                         Err(e) => {
-                            result = Some(Violation { class: "syntax-invariant".into(), detail: e, at_op: i });
-                            break;
+                            // Only a C13 matter when a fresh database on the same contents does not
+                            // show the same thing (otherwise it is a property of the parser/plugins
+                            // on this text, whatever the history).
+                            let fresh_same = Sut::new(scratch, project.starknet)
+                                .map(|mut f| {
+                                    for (file, c) in &world.overrides {
+                                        f.set_override(file, Some(c.clone()));
+                                    }
+                                    dbx::syntax_invariants(&f.db, &f.main, &mut Rng::new(inv_seed), 12).is_err()
+                                })
+                                .unwrap_or(false);
+                            if fresh_same {
+                                stats.counters.inc("syntax_invariant_fails_on_fresh_too_skipped");
+                            } else {
+                                result = Some(Violation { class: "syntax-invariant".into(), detail: e, at_op: i });
+                                break;
+                            }
                         }
                     }
                 }
